@@ -202,6 +202,9 @@ func FamilyScenario(family string, seed int64, i, blocks, maxTx int) *Scenario {
 	if family == "eth5" {
 		gs = EthGenesis5()
 	}
+	if family == "olvm" {
+		gs = OlvmGenesis()
+	}
 	id := fmt.Sprintf("%s-%d-%d", family, seed, i)
 	g := NewGen(seed*1000003+int64(i), gs)
 	switch family {
